@@ -39,7 +39,7 @@ impl Stage for Cadence {
         "cadence"
     }
     fn cases(&self, tier: Tier) -> u32 {
-        tier.pick(200, 1500)
+        tier.pick(400, 3000)
     }
     fn strategy(&self, tier: Tier) -> BoxedStrategy<Case> {
         let max = tier.pick(7200u32, 43_200u32);
